@@ -404,6 +404,28 @@ theorem skippedSet_instance (h : WF I ms rank) (rel : SkipRel I ms skip ms') (t 
       (fun b hb => by rw [instanceAt_get]; exact hlayer b hb) fuel).2]
     exact hc
 
+/-- the instance of the filtered family is acyclic (with the ranks of the family) -/
+theorem ranked_instance' (h : WF I ms rank) (rel : SkipRel I ms skip ms') (t : Q) (ht : InHull I t) :
+    Ranked (instanceAt I ms' t) rank := by
+  intro n g' hg' k hk
+  rw [instanceAt_get] at hg'
+  have hsk : skip.contains n = false := by
+    cases hc : skip.contains n with
+    | false => rfl
+    | true =>
+      have := (skippedSet_instance h rel t ht).gone n hc
+      rw [instanceAt_get, hg'] at this; cases this
+  cases hg : glyphAt I ms n t with
+  | none => rw [glyphAt_absent h rel n t ht hg] at hg'; cases hg'
+  | some g =>
+    obtain ⟨fuel, d, hd, h2⟩ := (skippedSet_instance h rel t ht).dec n g hsk (by rw [instanceAt_get]; exact hg)
+    rw [instanceAt_get, hg'] at h2
+    have := Option.some.inj h2; subst this
+    have hgood := good_instance h t ht
+    obtain ⟨k0, hk0, hle⟩ := (pen_rank _ rank hgood.ranked false fuel).2 (some skip) Affine.id g.comps d hd k hk
+    have := hgood.ranked n g (by rw [instanceAt_get]; exact hg) k0 hk0
+    omega
+
 /-- **the variable-font clause for every pair of families in the relation `SkipRel`** -/
 theorem vf_render_rel (h : WF I ms rank) (rel : SkipRel I ms skip ms') (n : String) (hsk : skip.contains n = false)
     (t : Q) (ht : InHull I t) (f1 f2 : Nat) (hf1 : rank n < f1) (hf2 : rank n < f2) :
